@@ -50,6 +50,8 @@ fn sugar_pairs() -> Vec<(String, String)> {
         (wrap("    x := add' 1, // the first\n        2"), wrap("    x := add(1, 2)")),
         (wrap("    x := add(1, // the first\n        2)"), wrap("    x := add(1, 2)")),
         (wrap("    x := add(\n        1,\n\n        2\n    )"), wrap("    x := add(1, 2)")),
+        (wrap("    x := add(\n        1,\n        inc' 2\n    )"), wrap("    x := add(1, inc(2))")),
+        (wrap("    x := (\n        inc' 2\n    )"), wrap("    x := inc(2)")),
     ]
 }
 fn search_sugar() -> Option<(String, String)> {
